@@ -281,7 +281,9 @@ UNIT = VUnit(
            expect_sig=r"fn scan_identifier_or_keyword\(&mut self, start: usize\) -> Token<'arena>",
            requires=["old(self).inv()", "start == old(self).pos", "old(self).pos < old(self).len",
                      "is_alpha(old(self).src@[old(self).pos as int]) || old(self).src@[old(self).pos as int] == 95"],
-           ensures=FRAME + ["final(self).inv()", "final(self).pos > old(self).pos"],
+           ensures=FRAME + ["final(self).inv()", "final(self).pos > old(self).pos",
+                            # C10: when the multi-word lookahead fails the position is rolled back to exactly the end of the first word
+                            "r is IdentifierLit ==> (forall|i: int| old(self).pos <= i < final(self).pos ==> is_word_byte(final(self).src@[i])) && (final(self).pos == final(self).len || !is_word_byte(final(self).src@[final(self).pos as int]))"],
            rewrites=[Rw("R4", r'word == "(\w+)"', r'word_is(self.src, &word, "\1")', min_matches=2),
                      Rw("R8", r'Token::Identifier\("\w+"\)', "Token::IdentifierLit", min_matches=2),
                      Rw("R11", r"match word \{.*\}(\s*\})\s*$", r"self.keyword_or_identifier(word, start)\1")],
@@ -303,7 +305,7 @@ UNIT = VUnit(
            inserts=[(r"let beg = self\.pos;", 1, "proof { lemma_after_ascii(self.src@, start as int); }"),
                     (r"let line_end = self\.pos \+ newline;", 1, "proof { assert(bytes@[newline as int] == self.src@[self.pos + newline]); lemma_ascii_boundary(self.src@, self.pos + newline); }"),
                     (r"let c = self\.src\[pos\];", 1, "proof { assert(bytes@[quote_or_escape as int] == self.src@[self.pos + quote_or_escape]); lemma_ascii_boundary(self.src@, pos as int); lemma_after_ascii(self.src@, pos as int); }"),
-                    (r"let mut esc_end = pos \+ 2;", 1, "proof { if esc < 0x80 { lemma_after_ascii(self.src@, pos + 1); } }")],
+                    (r"let esc = self\.src\[pos \+ 1\];", 1, "proof { if esc < 0x80 { lemma_after_ascii(self.src@, pos + 1); } }", "after")],
            vacuity="s: Lexer, start: usize, quote: u8", vacuity_subst=[("old(self)", "s")], real_name="Lexer::scan_string"),
         Fn("next_token", impl=L,
            sig="fn next_token(&mut self) -> (r: SpannedToken)", expect_sig=r"fn next_token\(&mut self\) -> SpannedToken<'arena>",
